@@ -85,8 +85,8 @@ def run_bin(binpath, args, timeout):
         return 124, (ex.stdout or b"").decode() if isinstance(ex.stdout, bytes) else (ex.stdout or ""), "timeout", time.time() - t0
 
 
-def replay(binpath, lens_args, history, timeout=120):
-    args = ["replay"] + lens_args + ["--history", history]
+def replay(binpath, lens_args, history, timeout=120, sub="explore"):
+    args = (["replay"] if sub == "explore" else [sub]) + lens_args + ["--history", history]
     rc, out, err, _ = run_bin(binpath, args, timeout)
     res = None
     for line in out.splitlines():
@@ -99,11 +99,11 @@ def replay(binpath, lens_args, history, timeout=120):
     return rc, res, err
 
 
-def write_replay(prop, cfg, lens_args, history, pretty, epilogue_pretty, violations, kind):
+def write_replay(prop, cfg, lens_args, history, pretty, epilogue_pretty, violations, kind, sub="explore"):
     os.makedirs(REPLAYS, exist_ok=True)
     h = hashlib.sha1((cfg + " ".join(lens_args) + history).encode()).hexdigest()[:12]
     path = os.path.join(REPLAYS, "%s-%s.json" % (prop, h))
-    json.dump({"property": prop, "config": cfg, "lens_args": lens_args, "history": history, "history_pretty": pretty,
+    json.dump({"property": prop, "config": cfg, "sub": sub, "lens_args": lens_args, "history": history, "history_pretty": pretty,
                "epilogue_pretty": epilogue_pretty, "violations": violations, "kind": kind,
                "how_to_replay": "./check %s --replay %s" % (prop, path)}, open(path, "w"), indent=1)
     return path
@@ -130,11 +130,11 @@ class Outcome:
         self.runs = []         # per-run coverage dicts
 
 
-def explore_run(prop, cfg, binpath, args, out, known, tier, seed):
+def explore_run(prop, cfg, binpath, args, out, known, tier, seed, sub="explore"):
     """One exploration run of the model checker, with crash isolation."""
     os.makedirs(os.path.join(BUILD, "tmp"), exist_ok=True)
     outfile = os.path.join(BUILD, "tmp", "run-%d-%d.json" % (os.getpid(), len(out.runs)))
-    full = ["explore"] + args + ["--focus", prop, "--seed", str(seed), "--out", outfile]
+    full = [sub] + args + (["--focus", prop, "--seed", str(seed)] if sub == "explore" else []) + ["--out", outfile]
     if os.path.exists(outfile):
         os.remove(outfile)
     rc, so, se, wall = run_bin(binpath, full, timeout=6 * 3600)
@@ -163,8 +163,8 @@ def explore_run(prop, cfg, binpath, args, out, known, tier, seed):
             # confirm by isolated replay, twice
             ok = 0
             for _ in range(2):
-                rrc, rres, rerr = replay(binpath, lens_args, f["history"])
-                if rrc == 1 and rres and any(x["property"] in (prop, "ANY") for x in rres["violations"]):
+                rrc, rres, rerr = replay(binpath, lens_args, f["history"], sub=sub)
+                if rrc == 1 and (sub != "explore" or (rres and any(x["property"] in (prop, "ANY") for x in rres["violations"]))):
                     ok += 1
                 elif rrc not in (0, 1):
                     ok += 1 if rrc == 70 else 0
@@ -176,7 +176,7 @@ def explore_run(prop, cfg, binpath, args, out, known, tier, seed):
             if k:
                 out.known.append("%s (%s)" % (k.get("id", "?"), msg))
             else:
-                path = write_replay(prop, cfg, lens_args, f["history"], f["history_pretty"], f.get("epilogue_pretty", ""), vs, "oracle")
+                path = write_replay(prop, cfg, lens_args, f["history"], f["history_pretty"], f.get("epilogue_pretty", ""), vs, "oracle", sub=sub)
                 out.violations.append((path, msg))
         return
     # The explorer died: crash isolation
@@ -186,7 +186,7 @@ def explore_run(prop, cfg, binpath, args, out, known, tier, seed):
     for h in inflight:
         n = 0
         for _ in range(2):
-            rrc, rres, rerr = replay(binpath, lens_args, h)
+            rrc, rres, rerr = replay(binpath, lens_args, h, sub=sub)
             if rrc not in (0, 1, 2):
                 n += 1
             elif rrc == 1:
